@@ -29,6 +29,9 @@ Proof.
   rewrite existsb_exists. intros [x [H1 H2]]. destruct x; try discriminate. eauto.
 Qed.
 
+Lemma app_single_len {A} (l : list A) x : (length (l ++ [x]) <= 1)%nat -> l = [].
+Proof. destruct l; [reflexivity|]. cbn. rewrite app_length. cbn. lia. Qed.
+
 (* fields that matter once the request is complete *)
 Record SameQ (s s' : st) : Prop := {
   q_sent : sent s' = sent s; q_tr : tr s' = tr s; q_pend : pending s' = pending s;
@@ -304,8 +307,8 @@ Proof.
     destruct (feed s1 r) as [s2 a2]. cbn [fst snd] in *. subst a1 a2.
     right. exists i, k. cbn [app amw_ids flat_map wc filter is_wc is_write is_close orb].
     assert (P1 : pending s1 = [(i, k)]).
-    { pose proof (i_len _ _ I1) as Len. rewrite C4 in *. destruct (pending s); [reflexivity|].
-      cbn in Len. rewrite app_length in Len. cbn in Len. slia. }
+    { pose proof (i_len _ _ I1) as Len. rewrite C4 in Len. rewrite C4.
+      rewrite (app_single_len _ _ Len). reflexivity. }
     repeat split; try congruence.
   - assert (H1 : sent (fst (data_received s d)) = false \/ NC (fst (data_received s d))).
     { destruct H as [H|H]; [|right; apply NC_data_received; assumption].
